@@ -261,4 +261,5 @@ func noCRLF(v *T) {
 		v.NT[i] = f(v.NT[i])
 	}
 	v.N = f(v.N)
+	v.MS = MyStr(f(string(v.MS)))
 }
